@@ -79,7 +79,7 @@ def _direct_registry(draw) -> dict:
             children[str(child)] = {"child_id": child, "child_type": draw(_int_any), "description": draw(_text), "values": values}
         reg[str(node)] = {
             "node_id": node,
-            "node_type": draw(_int_any),
+            "node_type": draw(st.one_of(st.sampled_from((17, 18, 18)), _int_any)),
             "protocol_version": draw(st.one_of(st.sampled_from(("2.0", "2.2.0", "1.4", "")), _text)),
             "sketch_name": draw(_text),
             "sketch_version": draw(_text),
